@@ -17,14 +17,16 @@ def dispatch (op : String) : Option (List String → String → Res) :=
   | "builder" => some hBuilder
   | "nextone" => some hNextOne | "prevone" => some hPrevOne
   | "tbl" => some hTblIdxToPath
-  | "builderprobe" => some hProbeOk | "ofmanyprobe" => some hProbeOk | "tbprobe" => some hProbeOk | "bmprobe" => some hProbeOk | "pathstrprobe" => some hProbeOk | "gcprobe" => some hProbeOk
+  | "builderprobe" => some hProbeOk | "ofmanyprobe" => some hProbeOk | "tbprobe" => some hProbeOk | "bmprobe" => some hProbeOk | "pathstrprobe" => some hProbeOk | "gcprobe" => some hProbeOk | "cmpuptoprobe" => some hProbeOk
   | "join" => some hJoin | "joinprobe" => some hJoinProbe | "getw" => some hGetw | "slice" => some hSlice
   | "fromstr32" => some hFromStr32
   | "tb" => some hTb
   | "p2i" => some (hP2I false) | "p2id" => some (hP2I true)
   | "p2il" => some (hP2IL false) | "p2ild" => some (hP2IL true)
   | "allpaths" => some hAllPaths | "decode" => some hDecode
-  | "i2p" => some hI2P
+  | "i2p" => some hI2P | "i2pseq" => some (hSeq hI2P)
+  | "p2iseq" => some (hSeq (hP2I false)) | "p2iseqd" => some (hSeq (hP2I true))
+  | "p2ilseq" => some (hSeq (hP2IL false)) | "p2ilseqd" => some (hSeq (hP2IL true))
   | "pathinfo" => some hPathInfo | "pathcmp" => some hPathCmp
   | "pathof" => some hPathOf | "pathsof" => some hPathsOf
   | "bsnew" => some hBsNew | "bscmp" => some hBsCmp | "bscmpupto" => some hBsCmpUpto
